@@ -76,17 +76,28 @@ SendMust(p) == \/ ~cfg.gap /\ Sent(p)
 SendMay(p)  == \/ SendMust(p)
                \/ cfg.win /\ Sends(p) >= cfg.maxCount
 
-SendLegal(a) ==
-  /\ a.r \in {"ok", "refused"}
-  /\ a.r = "ok" =>
-       /\ ~SendMust(a.p)
-       /\ \/ cfg.mock                    \* mock mode: whether an SMS leaves is left open
-          \/ /\ Len(a.sms) = 1           \* exactly one message, to this pair, well-formed code
+(* exactly one message reached the gateway, addressed to this pair, code well-formed *)
+OneSms(a) == /\ Len(a.sms) = 1
              /\ a.sms[1].area = a.p.area /\ a.sms[1].phone = a.p.phone
              /\ CodeShape(a.sms[1].code)
+
+(* r = "gw": the send passed the limits, the message was handed to the SMS *)
+(* gateway and the gateway failed (returned an error or panicked).  The    *)
+(* caller sees the gateway's failure.  Such a send must not have been due  *)
+(* for refusal; what it leaves behind is open (see Ghost).                 *)
+SendLegal(a) ==
+  /\ a.r \in {"ok", "refused", "gw"}
+  /\ a.stable    \* the returned hash and the delivered code still read as when they were handed over
+  /\ a.r = "ok" =>
+       /\ ~SendMust(a.p)
+       /\ cfg.mock \/ OneSms(a)          \* mock mode: whether an SMS leaves is left open
+  /\ a.r = "gw" => ~cfg.mock /\ ~SendMust(a.p) /\ OneSms(a)
   /\ a.r = "refused" =>
        /\ SendMay(a.p)
        /\ cfg.mock \/ Len(a.sms) = 0     \* a refused send sends nothing
+
+(* attempts are counted up to one above the limit (a negative limit admits nothing) *)
+VCap == IF cfg.maxVerify < 0 THEN 0 ELSE cfg.maxVerify
 
 (* the code a successful send has put in force *)
 CodeOf(a) == IF cfg.mock THEN MockCode(a.p.phone, cfg.len) ELSE a.sms[1].code
@@ -113,18 +124,27 @@ Legal(a) ==
 (* force and zeroes the attempts; a refused send changes nothing; every    *)
 (* verification against a pair with a code in force is an attempt.         *)
 (* (tries saturates one above the limit: larger values change nothing)     *)
+InForce(a, charged) ==
+  Ext(gs, a.p,
+      [code  |-> CodeOf(a), hash |-> a.hash, tries |-> 0,
+       sends |-> IF cfg.win THEN Sends(a.p) + (IF charged THEN 1 ELSE 0) ELSE 0,
+       ocode |-> IF Sent(a.p) THEN gs[a.p].code ELSE BadCode,
+       ohash |-> IF Sent(a.p) THEN gs[a.p].hash ELSE BadHash])
+
 Ghost(a) ==
   CASE a.op = "send" ->
-         IF a.r = "ok"
-         THEN gs' = Ext(gs, a.p,
-                  [code  |-> CodeOf(a), hash |-> a.hash, tries |-> 0,
-                   sends |-> IF cfg.win THEN Sends(a.p) + 1 ELSE 0,
-                   ocode |-> IF Sent(a.p) THEN gs[a.p].code ELSE BadCode,
-                   ohash |-> IF Sent(a.p) THEN gs[a.p].hash ELSE BadHash])
+         IF a.r = "ok" THEN gs' = InForce(a, TRUE)
+         ELSE IF a.r = "gw"
+         THEN \* the statement does not say what a send leaves behind whose delivery failed:
+              \* nothing, or the new code in force (returned hash valid, attempts zeroed)
+              \* with or without the send being charged to the window
+              \/ gs' = gs
+              \/ gs' = InForce(a, TRUE)
+              \/ gs' = InForce(a, FALSE)
          ELSE gs' = gs
     [] a.op = "verify" ->
          IF Sent(a.p)
-         THEN gs' = [gs EXCEPT ![a.p].tries = Least(@ + 1, cfg.maxVerify + 1)]
+         THEN gs' = [gs EXCEPT ![a.p].tries = Least(@ + 1, VCap + 1)]
          ELSE gs' = gs
     [] OTHER -> FALSE
 
@@ -178,7 +198,7 @@ MechVerifyOut(p, code, hash) ==
 MechVerify(a) ==
   LET k == VerifyKey(a.p) IN
   /\ IF MechVerifyOut(a.p, a.code, a.hash).counted
-     THEN ent' = [ent EXCEPT ![k].vcnt = Least(@ + 1, cfg.maxVerify + 1)]
+     THEN ent' = [ent EXCEPT ![k].vcnt = Least(@ + 1, VCap + 1)]
      ELSE ent' = ent
   /\ nh' = nh
 
@@ -187,7 +207,7 @@ SendAct(p, pick) ==
   LET e    == MechSendErr(p)
       ok   == e = "none"
       code == IF cfg.mock THEN MockCode(p.phone, cfg.len) ELSE pick
-  IN [op |-> "send", p |-> p, pick |-> pick,
+  IN [op |-> "send", p |-> p, pick |-> pick, stable |-> TRUE,
       r |-> IF ok THEN "ok" ELSE "refused", err |-> e,
       code |-> IF ok THEN code ELSE BadCode,
       hash |-> IF ok THEN <<nh + 1>> ELSE <<>>,
@@ -233,6 +253,10 @@ P(ar, ph) == [area |-> ar, phone |-> ph]
 (* ("1","23") and ("12","3") concatenate alike; ("1","3") shares area / phone with them *)
 Pairs2 == {P(<<49>>, <<50, 51>>), P(<<49, 50>>, <<51>>)}
 Pairs3 == Pairs2 \cup {P(<<49>>, <<51>>)}
+(* limits including a negative one (cfg files cannot hold negative literals) *)
+CountsX   == {-1, 0, 1, 2}
+VerifiesX == {-1, 0, 1, 2, 3}
+VerifiesY == {-1, 0, 1, 2}
 Alpha2 == <<48, 49>>
 Alpha3 == <<48, 49, 50>>
 Digits == <<48, 49, 50, 51, 52, 53, 54, 55, 56, 57>>
@@ -261,7 +285,7 @@ Bound == nh <= MaxSends
 (* ------------------------------ properties ----------------------------- *)
 TypeOK ==
   /\ nh \in Nat
-  /\ \A p \in DOMAIN gs : gs[p].tries \in 0..(cfg.maxVerify + 1) /\ gs[p].sends \in Nat
+  /\ \A p \in DOMAIN gs : gs[p].tries \in 0..(VCap + 1) /\ gs[p].sends \in Nat
 
 (* every reply of the mechanism is one the property allows *)
 VerifiesWhenDue == [][LET a == last' IN (a.op = "verify" /\ Due(a)) => a.r = "ok"]_allvars
